@@ -141,6 +141,9 @@ func checkC07(c *Ctx) {
 	c07ServerInputs(c, "R07e")
 	r.Rule("R07h", "every JSON arm of the Go server's response encoder consults the message's own codec first: the declared (annotated) TypeScript type is what is on the wire whatever the request's content type (shared with C06/R06f)", 2)
 	codecPrecedence(c, "R07h", false)
+	c07HandlerPropertyNames(c)
+	r.Rule("R07j", "a flattened oneof whose variant children share a name with a parent property (plain, optional, member of another oneof, discriminator) is refused: the intersection type Base & Payload would declare the property twice with different types (scenarios shared with C12/R12g)", 5)
+	c12ScenariosRule(c, "R07j", func(fn, rule string) bool { return fn == "validateOneofFlatten" })
 	c07Presence(c)
 }
 
@@ -492,3 +495,54 @@ func c07Presence(c *Ctx) {
 }
 
 func init() { props["C07"] = checkC07 }
+
+// c07HandlerPropertyNames: R07i — the TS server stores a path value under the bound field's JSON name (the name the
+// request interface declares). The function that resolves path variables to fields is interpreted on a request
+// message whose field has an explicit json_name; the property name it yields must be that JSON name.
+func c07HandlerPropertyNames(c *Ctx) {
+	r := c.R
+	r.Rule("R07i", "URL values are stored under the property names the request interface declares (the fields' JSON names)", 1)
+	fn := c.P.Func(pkgTSServer, "resolvePathParamFields")
+	if fn == nil {
+		r.Unres("R07i", "resolvePathParamFields", "", "not found")
+		return
+	}
+	pos := c.P.Pos(c.P.Decls[fn].Pos())
+	prev := c.W.Concrete
+	c.W.Concrete = true
+	defer func() { c.W.Concrete = prev }()
+	doc := fld("document_id", "string")
+	doc.JSON = "docId"
+	sec := fld("section_no", "int32")
+	m := cMethod("Get", cMessage("Req", doc, sec), cMessage("Resp"), nil)
+	run := c.W.NewRun(map[string]int{}, false)
+	run.InlineAll, run.FollowSlices = true, true
+	run.CallHook = c.cdescHook
+	run.StartArgs(fn, map[string]Val{"pathParams": VList{Key: "pp", Elems: []Val{constStr("document_id"), constStr("section_no")}}, "method": m})
+	if len(run.Used) > 0 || run.Aborted != "" {
+		r.Undec("R07i", "path variables resolved to request properties", pos, fmt.Sprintf("open decisions %v aborted %q", usedKeys(run), run.Aborted))
+		return
+	}
+	var got []string
+	res := run.Result
+	if tup, ok := res.(VTuple); ok && len(tup) > 0 {
+		res = tup[0]
+	}
+	if l, ok := res.(VList); ok {
+		for _, e := range l.Elems {
+			if st, ok := e.(*VStruct); ok {
+				// the string-valued members of the row other than the variable's own spelling
+				for _, k := range sortedKeys(st.Fields) {
+					if sv, ok := st.Fields[k].(VStr); ok {
+						if cs, isConst := sv.isConst(); isConst && cs != "document_id" && cs != "section_no" {
+							got = append(got, cs)
+						}
+					}
+				}
+			}
+		}
+	}
+	want := []string{"docId", "sectionNo"}
+	r.Check(strings.Join(got, ",") == strings.Join(want, ","), "R07i", "path variables {document_id (json_name docId), section_no} are bound to the properties docId, sectionNo", pos,
+		fmt.Sprintf("resolvePathParamFields yields the property names %v for the path variables {document_id (json_name \"docId\"), section_no}; the request interface declares %v: the handler receives the path value under an undeclared property and the declared one stays undefined", got, want))
+}
